@@ -29,6 +29,14 @@ MkDy(m, e) == IF m = 0 THEN [t |-> "float", k |-> "zero", sg |-> 0, m |-> 0, e |
 IsNum(v) == v.t \in {"int", "float"}
 IsSkip(v) == v.t = "SKIP"
 
+(* ---------------------------------------------------------------- sequences of items *)
+RECURSIVE Flat(_)
+\* the flat item sequence of a list or a concatenation (C11: "lists and concatenations as the flat sequences of their items")
+Flat(v) == IF v.t = "list" THEN v.v
+           ELSE IF v.t = "concat" THEN Flat(v.l) \o Flat(v.r)
+           ELSE <<v>>
+IsSeqLike(v) == v.t \in {"list", "concat"}
+
 (* ---------------------------------------------------------------- truth (C10): exactly unit and false are false *)
 Truthy(v) == v.t \notin {"unit", "false"}
 
@@ -63,14 +71,6 @@ NumCmp(a, b) ==
                IN IF mag = None THEN None
                   ELSE IF sa > 0 THEN mag ELSE Some(CASE mag[1] = "lt" -> "gt" [] mag[1] = "gt" -> "lt" [] OTHER -> "eq")
 NumEq(a, b) == LET c == NumCmp(a, b) IN IF c = None THEN None ELSE Some(c[1] = "eq")
-
-(* ---------------------------------------------------------------- sequences of items *)
-RECURSIVE Flat(_)
-\* the flat item sequence of a list or a concatenation (C11: "lists and concatenations as the flat sequences of their items")
-Flat(v) == IF v.t = "list" THEN v.v
-           ELSE IF v.t = "concat" THEN Flat(v.l) \o Flat(v.r)
-           ELSE <<v>>
-IsSeqLike(v) == v.t \in {"list", "concat"}
 
 (* ---------------------------------------------------------------- structural equality (C11) *)
 RECURSIVE StructEq(_, _), AllEq(_, _, _)
@@ -141,7 +141,10 @@ DistinctKeys(items) == NKeyed(items) = Cardinality(KeysOf(items))
 Lookup(v, sym) ==    \* <<value>>, <<>> = absent ; caller checks DistinctKeys
   IF v.t = "pair" THEN (IF v.l.t = "sym" /\ v.l.n = sym.n THEN Some(v.r) ELSE None)
   ELSE IF v.t = "list" THEN LookupIn(v.v, sym, 1)
+  ELSE IF v.t = "concat" THEN LookupIn(Flat(v), sym, 1)       \* C16: "the same holds for concatenations of such lists"
   ELSE None
+HasKeys(v) == v.t \in {"pair", "list", "concat"}
+KeysDistinct(v) == CASE v.t = "list" -> DistinctKeys(v.v) [] v.t = "concat" -> DistinctKeys(Flat(v)) [] OTHER -> TRUE
 \* value of  l . r  /  apply of a list or pair to r  (SKIP = not specified by the listed properties)
 AccessV(l, r) ==
   IF r.t = "int" THEN
